@@ -339,13 +339,28 @@ CLAIMED = {
             'bilinear blend of the four bounding ePSFs at the position '
             'clamped to the grid (stored ePSF at grid points, nearest edge '
             'value outside), and evaluation/copy/deepcopy histories give '
-            'the value of a fresh model. The normalisation, non-negativity '
-            'and Gaussian-consistency clauses (erf, exp, Bessel, Moffat '
-            'powers) are NOT claimed: no decision procedure is available '
-            'here for them.',
+            'the value of a fresh model. Analytic models (real evaluate '
+            'methods on symbolic centre, widths > 0, flux, angle, point; '
+            'erf/exp/cos/sin/pow axiomatised): every Gaussian PRF block sum '
+            'over [-N..N]^2 telescopes to flux/4 * d(erf)_x * d(erf)_y of the '
+            'half-integer block edges scaled by 1/(sqrt2 sigma), pixels are '
+            'flux/4 * positive per-axis factors (so >= 0 and block sums <= '
+            'flux), point-symmetric, linear in flux, sigma/FWHM/elliptical'
+            '(theta=0) forms agree; GaussianPSF exponent = -1/2 d^T '
+            'Sigma^-1 d with Sigma = R diag R^T for every angle, amplitude '
+            '* 2 pi sx sy = flux, equal widths = CircularGaussianPSF at any '
+            'rotation, 0 <= value <= central value; MoffatPSF profile and '
+            'amplitude flux (beta-1)/(pi alpha^2). Linking these to '
+            '"sums/integrates to flux" uses erf(+-inf)=+-1 and the Gaussian '
+            '/ Moffat integral formulas (trusted). AiryDiskPSF is only '
+            'compared with the textbook formula on a solver-enumerated '
+            'lattice (incl. r = 0).',
             'splines replaced by recording / uninterpreted stubs in the '
-            'symbolic part; floats as reals (outermost-sample round trip '
-            'outside the claim)',
+            'symbolic part; transcendental functions by axiomatised stubs '
+            '(unsat is sound for the real functions; sat is reported only '
+            'when the concrete replay reproduces it); floats as reals '
+            '(outermost-sample round trip outside the claim); GaussianPRF '
+            'only at theta = 0',
             TECH),
     'C06': ('3/C06',
             'For 6 concrete blended scenes (incl. label gaps with an '
